@@ -53,22 +53,27 @@ def harness_list(tier):
             for b in pats:
                 hs.append({"name": hname(b, nc), "bits": b, "ncomp": nc, "budget_s": 200, "clause": "C03.3", "bounded": f"n = {nc}"})
         return hs
-    # quick: a fixed representative selection (every outcome class, both component counts where the harness is
-    # known to finish within the per-harness budget; "no state" with two components returns an owned array through
-    # two Result layers and regularly exceeds it - those patterns are left to the thorough tier)
-    rnd = random.Random(20261001)
-    by_class = {}
-    for nc in (1, 2):
-        for b in pats:
-            by_class.setdefault((expected(*b, nc), nc), []).append(b)
-    chosen = []
-    for key, lst in sorted(by_class.items()):
-        if key == ("nostate", 2):
-            continue
-        rnd.shuffle(lst)
-        chosen += [(b, key[1]) for b in lst[:(2 if key[0] in ("err", "nvt") else 1)]]
-    for b, nc in chosen[:12]:
-        hs.append({"name": hname(b, nc), "bits": b, "ncomp": nc, "budget_s": 100, "clause": "C03.3", "bounded": f"n = {nc}"})
+    # quick: the minimal pattern of every rule of the table (T always present so that a route would exist if the
+    # rule were dropped), one pattern per route, one "no state" pattern.  Order of bits: T V rho pd Ntot N x p.
+    QUICK = [
+        ((1, 0, 1, 1, 0, 0, 0, 0), 1),  # (a) density and partial density
+        ((1, 0, 0, 0, 1, 1, 0, 0), 1),  # (a) total moles and moles
+        ((1, 1, 1, 0, 1, 0, 0, 0), 1),  # (a) density, total moles and volume
+        ((1, 1, 0, 1, 1, 0, 0, 0), 1),  # (a) partial density, total moles and volume
+        ((1, 1, 1, 0, 0, 1, 0, 0), 1),  # (a) density, moles and volume
+        ((1, 0, 0, 1, 0, 1, 0, 0), 1),  # (a) partial density and moles
+        ((1, 0, 0, 1, 0, 0, 1, 0), 1),  # (a) partial density and molefracs
+        ((1, 0, 0, 0, 0, 1, 1, 0), 1),  # (a) moles and molefracs
+        ((1, 1, 0, 0, 1, 0, 0, 0), 2),  # (b) mixture without composition
+        ((1, 1, 0, 0, 1, 0, 0, 0), 1),  # (c) T, V, N -> new_nvt
+        ((1, 0, 1, 0, 0, 1, 0, 0), 2),  # (c) T, rho, N_i -> new_nvt with V = N / rho
+        ((1, 0, 0, 0, 1, 0, 0, 1), 1),  # (c) T, p, N -> new_npt
+        ((1, 0, 0, 0, 0, 0, 1, 1), 2),  # (c) T, p, x -> new_npt with the reference amount
+        ((1, 1, 0, 0, 0, 0, 0, 1), 1),  # (c) T, p, V -> new_npvx
+        ((1, 0, 0, 0, 0, 0, 0, 0), 1),  # T alone: no state
+    ]
+    for b, nc in QUICK:
+        hs.append({"name": hname(b, nc), "bits": b, "ncomp": nc, "budget_s": 120, "clause": "C03.3", "bounded": f"n = {nc}"})
     return hs
 
 
